@@ -2,7 +2,7 @@
    Statements only, closed by `exact`, each followed by its axiom audit.  The models are in C12/Model.v. *)
 From Coq Require Import List Arith Bool ZArith QArith.
 Import ListNotations.
-From SFV Require Import C12.Model C12.Proofs C12.Merge.
+From SFV Require Import C12.Model C12.Proofs C12.Merge C12.TdmUtils C12.TdmUtilsProofs.
 Close Scope Q_scope.
 Open Scope nat_scope.
 
@@ -193,6 +193,37 @@ Theorem C12_borealis_user_offsets_old_refuted :
 Proof. exact insert_offsets_uo_incomplete_old. Qed.
 Print Assumptions C12_borealis_user_offsets_old_refuted.
 
+(* ---- tdm/utils.py: vacuum_padding ---------------------------------------------------------------------- *)
+(* loops = [(zero pattern of the loop's BSgate list, the loop's delay)] in loop order.  For every number of loops,
+   every pattern and every delay: the delay imposed by a loop never exceeds the loop's delay, is the full delay for an
+   all-zero list (of ANY length, also shorter than the delay) and for at least `delay` leading zeros, and the number of
+   leading zeros otherwise; the i-th prologue is the sum of the delays imposed by the earlier loops; prologue +
+   epilogue = crop = the sum of all imposed delays; every padded list is `crop` entries longer than the unpadded one. *)
+Theorem C12_vacuum_padding :
+  (forall z D, delay_imposed z D <= D /\
+               (forallb (fun b => b) z = true -> delay_imposed z D = D) /\
+               (D <= start_zeros z -> delay_imposed z D = D) /\
+               (start_zeros z < length z -> start_zeros z <= D -> delay_imposed z D = start_zeros z)) /\
+  (forall loops,
+    let '(pro, epi, crop) := padding_plan loops in
+    length pro = length loops /\ length epi = length loops /\ crop = list_sum (delays_of loops) /\
+    forall i p, nth_error pro i = Some p ->
+      p = list_sum (firstn i (delays_of loops)) /\
+      nth_error epi i = Some (crop - p) /\ p + (crop - p) = crop /\
+      forall (A : Type) (zero : A) (l : list A), length (pad zero p (crop - p) l) = length l + crop).
+Proof. exact (conj delay_imposed_cases padding_plan_spec). Qed.
+Print Assumptions C12_vacuum_padding.
+
+(* the imposed delay is the first time bin in which light can leave the loop stage (may-reach model of one delay
+   loop fed with one pulse per entry of the list, cross state where the entry is zero and in the padding): this is why
+   the next loop's gates -- and finally the detector's first non-vacuum bin, `crop` -- start that many bins later *)
+Theorem C12_vacuum_padding_first_exit :
+  forall z D, 1 <= D -> 1 <= length z ->
+    (forall t, t < delay_imposed z D -> exits D (length z) z t = false) /\
+    exits D (length z) z (delay_imposed z D) = true.
+Proof. exact first_exit. Qed.
+Print Assumptions C12_vacuum_padding_first_exit.
+
 (* hypotheses are satisfiable / the functions are not vacuous *)
 Example C12_ex_validate :
   validate Z Z.add Z.sub Z.leb [(0, [mkRange 0%Z 10%Z 1%Z])] [(0, Node [Leaf 11%Z; Node [Leaf (-1)%Z]])] = VOk.
@@ -204,4 +235,7 @@ Proof. reflexivity. Qed.
 Example C12_ex_insert :
   insert_offsets false [mkB 0 [3] false 0 false; mkB 1 [3] true 1 true; mkB 1 [2] false 2 true] [mkB 0 [3] false 10 false; mkB 1 [2] false 11 false]
   = Some ([mkB 0 [3] false 10 false; mkB 1 [3] true 1 true; mkB 1 [2] false 11 false], [false]).
+Proof. reflexivity. Qed.
+Example C12_ex_padding :
+  padding_plan [([true; false; true], 1); ([true; true; true], 6); ([false; true; true], 36)] = ([0; 1; 7], [7; 6; 0], 7).
 Proof. reflexivity. Qed.
